@@ -2,6 +2,7 @@ import Httoop.Model.Percent
 import Httoop.Model.Form
 import Httoop.Model.Utf8
 import Httoop.Model.PyInt
+import Httoop.Model.Inet
 /-
   Model of httoop/uri/uri.py (class URI and its scheme subclasses).
 
@@ -10,9 +11,9 @@ import Httoop.Model.PyInt
   registry `SCHEMES` is a parameter (regenerated from the source, T1).
   After the `fix:` commit for F10, `URI.unquote` raises `InvalidURI` for octets that are not UTF-8.
 
+  IPv4/IPv6 literals go through the model of glibc's `inet_pton`/`inet_ntop` (`Model/Inet.lean`).
   Not modelled (the model answers `needsOracle`, the correspondence skips and counts):
-  IPv6/IPvFuture literals (`socket.inet_pton/ntop`) and hosts containing the ACE prefix `xn--`
-  or non-ASCII text (the `idna` codec proper).
+  hosts containing the ACE prefix `xn--` or non-ASCII text (the `idna` codec proper).
 -/
 namespace Httoop.Uri
 open Httoop
@@ -93,7 +94,16 @@ def isHostChar (unresSub : Byte → Bool) (b : Byte) : Bool := unresSub b || b =
 
 /-- `URI._unquote_host` -/
 def unquoteHost (hostSafe : Byte → Bool) (h : Bytes) : R Bytes :=
-  if startsWith h [0x5B] && endsWith h [0x5D] then .error needsOracle
+  if startsWith h [0x5B] && endsWith h [0x5D] then
+    let inner := (h.drop 1).dropLast
+    match Inet.pton6 inner with
+    | some w => .ok (0x5B :: Inet.ntop6 w ++ [0x5D])
+    | none =>
+      -- IPvFuture: `v` digits `.` anything
+      let afterV := inner.drop 1
+      let ver := match splitOnce [0x2E] afterV with | some (a, _) => a | none => afterV
+      if startsWith inner [0x76] && inner.contains 0x2E && !ver.isEmpty && ver.all isDigit then .ok h
+      else .error .invalidURI
   else if looksIPv4 h then
     match ipv4Canon h with
     | some c => .ok c
